@@ -230,6 +230,14 @@ def cases(tier, rng, dist, focus=None):
     for k in range(4 if tier == "quick" else 16):
         yield {"f": "coverage", "fn": ["one_sample", "two_sample", "one_sample", "k_sample"][k % 4], "n": [40, 40, 70, 36][k % 4] + (k // 4),
                "reps": 64, "seed": rng.randint(0, 10**9), "rs": k >= 8 and k % 2 == 0}
+    # several hundred units (beyond any block size of 8, 32, 64, 256 bits): still every unit both ways
+    for k, (fn, n) in enumerate([("one_sample", 300), ("one_sample", 515), ("two_sample", 301), ("k_sample", 259)][:(4 if tier == "thorough" else 2)]):
+        yield {"f": "coverage", "fn": fn, "n": n + (0 if tier == "quick" else rng.randint(0, 7)), "reps": 64, "seed": rng.randint(0, 10**9), "rs": False}
+    # very many repetitions (beyond 2^16 and 2^17, not a multiple of either): keep_dist twins on the same seed, p recomputed from dist
+    for k, (fn, reps) in enumerate([("one_sample", 140001), ("two_sample", 140001), ("k_sample", 70001), ("shift", 70001)]):
+        n = rng.randint(5, 7)
+        yield {"f": "manyreps", "fn": fn, "x": [rng.randint(-3, 3) for _ in range(n)], "y": [rng.randint(-3, 3) for _ in range(n)],
+               "reps": reps if fn != "k_sample" else 70001, "alt": rng.choice(ALTS), "plus1": rng.random() < 0.5, "seed": rng.randint(0, 10**6), "rs": rng.random() < 0.3}
     # real seeds: reproducibility, generator interchangeability, p-value assembly on named float statistics
     for _ in range(N // 2):
         nx, ny = rng.randint(2, 6), rng.randint(2, 6)
@@ -325,7 +333,47 @@ def run(c):
         return run_coverage(c)
     if f == "seq":
         return run_seq(c)
+    if f == "manyreps":
+        return run_manyreps(c)
     return run_real(c)
+
+
+def run_manyreps(c):
+    x = np.array(c["x"], dtype=float); y = np.array(c["y"], dtype=float); g = np.array([i % 3 for i in range(len(x))])
+    mk = (lambda: np.random.RandomState(c["seed"])) if c["rs"] else (lambda: c["seed"])
+    def call(keep):
+        if c["fn"] == "one_sample":
+            return core.one_sample(x, reps=c["reps"], stat="mean", alternative=c["alt"], keep_dist=keep, seed=mk(), plus1=c["plus1"])
+        if c["fn"] == "two_sample":
+            return core.two_sample(x, y, reps=c["reps"], stat="mean", alternative=c["alt"], keep_dist=keep, seed=mk(), plus1=c["plus1"])
+        if c["fn"] == "shift":
+            return core.two_sample_shift(x, y, reps=c["reps"], stat="mean", alternative=c["alt"], keep_dist=keep, seed=mk(), plus1=c["plus1"], shift=(lambda u: u * 2.0, lambda u: u / 2.0))
+        return ksample.k_sample(x, g, reps=c["reps"], keep_dist=keep, seed=mk(), plus1=c["plus1"])
+    a = guarded(lambda: call(True), secs=120); b = guarded(lambda: call(False), secs=120)
+    out = {"keep": [a[0]] + ([float(a[1][0]), float(a[1][1]), len(a[1][2])] if a[0] == "ok" else list(a)[1:3]),
+           "nokeep": [b[0]] + ([float(b[1][0]), float(b[1][1])] if b[0] == "ok" else list(b)[1:3])}
+    if a[0] == "ok":
+        d = np.asarray(a[1][2], dtype=float); tst = float(a[1][1])
+        out["up"] = int(np.sum(d >= tst)); out["dn"] = int(np.sum(d <= tst))
+    return out
+
+
+def oracle_manyreps(c, o):
+    name = {"shift": "two_sample_shift"}.get(c["fn"], c["fn"])
+    if o["keep"][0] != "ok" or o["nokeep"][0] != "ok":
+        return {"why": f"{name}(reps={c['reps']}) raised {o['keep'][:3]} / {o['nokeep'][:3]}", "cls": f"{name}:raises"}
+    p, tst, nd = o["keep"][1:4]
+    if nd != c["reps"]:
+        return {"why": f"{name}: len(dist) = {nd}, reps = {c['reps']}", "cls": f"{name}:dist-length"}
+    cc = 1 if c["plus1"] else 0
+    up = Fraction(o["up"] + cc, c["reps"] + cc); dn = Fraction(o["dn"] + cc, c["reps"] + cc)
+    alt = c["alt"] if name != "k_sample" else "greater"
+    want = {"greater": up, "less": dn, "two-sided": min(Fraction(1), 2 * min(up, dn))}[alt]
+    if not close(p, want, 1e-9):
+        return {"why": f"{name}(reps={c['reps']}, {alt}, plus1={c['plus1']}): p = {p} but (#extreme + c)/(reps + c) from the returned dist is {float(want)}", "cls": f"{name}:p-not-from-dist"}
+    if not close(o["nokeep"][1], p, 1e-12) or not same_result(o["nokeep"][2], tst):
+        return {"why": f"{name}(reps={c['reps']}, seed={c['seed']}): keep_dist=False gives (p, stat) = {o['nokeep'][1:3]}, keep_dist=True {[p, tst]} on the same seed", "cls": f"{name}:keepdist-differs"}
+    return None
 
 
 def seq_call(step, c, gen, x, y, g, m):
@@ -1276,7 +1324,7 @@ def oracle_real(c, o):
 
 def oracle(c, o):
     return {"two_sample": oracle_two, "one_sample": oracle_one, "corr": oracle_corr, "k_sample": oracle_k, "permute": oracle_permute,
-            "pot": oracle_pot, "real": oracle_real, "prng": oracle_prng, "coverage": oracle_coverage, "seq": oracle_seq}[c["f"]](c, o)
+            "pot": oracle_pot, "real": oracle_real, "prng": oracle_prng, "coverage": oracle_coverage, "seq": oracle_seq, "manyreps": oracle_manyreps}[c["f"]](c, o)
 
 
 def nontrivial(c, o):
